@@ -97,7 +97,7 @@ def run(chk, ctx) -> None:
         trys = [n for n in walk_no_nested(fi.node) if isinstance(n, ast.Try)]
         ok = bool(trys) and all(
             any(h.type is not None and 'ValueError' in ast.unparse(h.type) for h in t.handlers)
-            and all(isinstance(s, ast.Pass) for h in t.handlers for s in h.body) for t in trys)
+            and all(isinstance(s, (ast.Pass, ast.Continue)) for h in t.handlers for s in h.body) for t in trys)
         chk.ob('C05.errors', f'{fi.qualname}:skip_invalid', ok, fi.loc,
                'a combination that is not a hand of the type is skipped (ValueError caught, nothing else done)')
     # ---- the search is exhaustive: nothing leaves a combination loop early
@@ -131,6 +131,8 @@ def run(chk, ctx) -> None:
             raise AnalysisError(f'{fi.qualname}: loop unreachable')
         it = ev.term  # combinations(X, r)
         x, r = it[2]
+        if x[0] == 'call' and x[1] in ('tuple', 'list') and len(x[2]) == 1 and x != want_iter:
+            x = x[2][0]          # materialising the collection first changes nothing about what is combined
         chk.ob('C05.source', f'{fi.qualname}:collection', x == want_iter, ctx.loc(fi, loops[0]),
                'collection the combinations are drawn from', got=T.show(x), want=T.show(want_iter))
         chk.ob('C05.source', f'{fi.qualname}:size', r == T.spec(f'cls.{want_attr}'), ctx.loc(fi, loops[0]),
